@@ -86,6 +86,26 @@ NullBaseNext ==
         /\ \A n \in 1..d : ~HasTag(alts[n], "reset")
         /\ (a.k = "image" => alts[d - 1] # Absent)
         /\ cs' = [kind |-> "chain-null-base", attr |-> a.n, depth |-> d, place |-> SubSeq(place, 1, d), nodes |-> U, target |-> r]
-Spec == Init /\ [][Next \/ ForkNext \/ NullBaseNext]_cs
+\* a bystander: a service that is not on the chain but carries the name of one that is, in the other file, and resets the attribute.
+\* A `!reset` written in a file speaks of that file's services: the bystander of the main file (named like the first base, which
+\* lives in another file) and the bystander of the base's file (named like the extending service) change nothing for the chain.
+BystanderUniverse(a, alts, place, d, where) ==
+  LET U == Universe(a, alts, place, d, FALSE) IN
+  [n \in 1..(d + 1) |-> IF n <= d THEN U[n]
+     ELSE [file |-> (IF where = "main" THEN 1 ELSE place[2]), name |-> (IF where = "main" THEN Names[2] ELSE Names[1]), ext |-> 0, isnull |-> FALSE,
+           local |-> M2("image", S("base"), a.k, Tagged(Null, "reset"))]]
+BystanderNext ==
+  /\ IsSeed
+  /\ LET a == Attrs[cs.seed] IN
+     \E d \in 2..Depth : \E place \in Placements : \E alts \in [1..d -> a.alts \cup {Absent}] : \E where \in {"main", "other"} :
+        LET U == BystanderUniverse(a, alts, place, d, where)
+            r == [n \in {m \in 1..(d + 1) : U[m].file = 1} |-> Resolve(U, Dirs, n, {})] IN
+        /\ a.k # "image" /\ place[2] # 1
+        /\ \A n \in 1..d : ~HasTag(alts[n], "reset")
+        /\ (where = "main" => (d = 3 /\ alts[3] # Absent))
+        /\ (where = "other" => alts[d] # Absent)
+        /\ (a.n = "env_file" => \A i, j \in 1..d : (i # j /\ alts[i] # Absent) => alts[i] # alts[j])
+        /\ cs' = [kind |-> "chain-bystander-" \o where, attr |-> a.n, depth |-> d, place |-> SubSeq(place, 1, d), nodes |-> U, target |-> r]
+Spec == Init /\ [][Next \/ ForkNext \/ NullBaseNext \/ BystanderNext]_cs
 ChainLaws == IsSeed \/ \A n \in DOMAIN cs.target : ~IsErrV(cs.target[n])
 =============================================================================
